@@ -6,10 +6,10 @@ from .terms import Terms, cname, short, strip, same
 class Analysis:
     """Per-body bundle: terms + guard atoms (memoised on the Program)."""
 
-    def __init__(self, prog, body):
+    def __init__(self, prog, body, positions=False):
         self.prog = prog
         self.body = body
-        self.terms = Terms(body, prog)
+        self.terms = Terms(body, prog, positions)
         self._edge_dom = {}
 
     # ------------------------------------------------------------------ edges
@@ -43,7 +43,12 @@ class Analysis:
     def edge_atom(self, s, t):
         """Normalised atom for switch edge s->t: (term, 'in'|'notin', frozenset(values))."""
         term = self.body.blocks[s]["t"]
-        d = self.terms.operand(term["d"])
+        saved = self.terms._pos
+        self.terms._pos = (s, "t")        # the discriminant is read by the switch itself
+        try:
+            d = self.terms.operand(term["d"])
+        finally:
+            self.terms._pos = saved
         vals = [v for v, tgt in term["vs"] if tgt == t]
         if term["otherwise"] == t and not vals:
             return (d, "notin", frozenset(v for v, _ in term["vs"]))
@@ -110,11 +115,11 @@ def truth_of(rel, vals):
 _AN = {}
 
 
-def analysis(prog, body):
-    key = (id(prog), body.path)
+def analysis(prog, body, positions=False):
+    key = (id(prog), body.path, positions)
     a = _AN.get(key)
     if a is None:
-        a = Analysis(prog, body)
+        a = Analysis(prog, body, positions)
         _AN[key] = a
     return a
 
